@@ -681,6 +681,8 @@ package app
 //@   ensures others-config: forall k string :: k != name && k != newName ==> (k in p.project.Processes <==> old(k in p.project.Processes)) && p.project.Processes[k] == old(p.project.Processes[k])
 //@   ensures keyed: runnerKeyed(p)
 //@   ensures nolocks: noLocks()
+//@   ensures wf: runnerWF(p) && p.processLogs == old(p.processLogs) && p.processStates == old(p.processStates) && p.project == old(p.project) && p.project.Processes == old(p.project.Processes)
+//@   ensures logs-stay-nonnil: forall k string :: k in p.processLogs ==> p.processLogs[k] != nil
 
 // A replica that is added gets its OWN fresh state object and log buffer and its configuration under its replica
 // name; it is launched (exactly one instance) unless it is disabled or a foreground process.
@@ -710,13 +712,34 @@ package app
 //@ func (p *ProjectRunner) scaleUpProcess
 //@   requires noLocks() && runnerWF(p) && p.processStates != nil && p.processLogs != nil && p.project.Processes != nil && p.project.LogLength >= 0 && toAdd >= 0
 //@   requires counts: origScale >= 1 && scale == origScale + toAdd
+//@   requires count-is-current: origScale == lastReplicaCount()
 //@   requires names-free: forall s string, n int {replicaNameOf(s, scale, n)} :: origScale <= n && n < scale ==> !(replicaNameOf(s, scale, n) in p.runningProcesses)
 //@   after (*templater.Templater).RenderProcess assert numbered: procFromConf.ReplicaNum == origScale + i && procFromConf.Replicas == scale
-//@   ensures nolocks: noLocks()
+//@   ensures nolocks: noLocks() && runnerWF(p)
 //@   loop 1 invariant a: noLocks() && runnerWF(p)
 //@   loop 1 invariant b: p.processStates != nil && p.processLogs != nil && p.project.Processes != nil
 //@   loop 1 invariant c: p.project.LogLength >= 0 && i >= 0
 //@   loop 1 invariant names: forall s string, n int {replicaNameOf(s, scale, n)} :: origScale + i <= n && n < scale ==> !(replicaNameOf(s, scale, n) in p.runningProcesses)
+
+// After a scale request every configured replica of the process carries the new count and the name that goes with
+// it (count and number determine the name: the bare name for one replica, zero-padded otherwise), under that name as
+// key; replicas whose name changes are renamed in all registries. The loop ranges over the map it updates: an entry
+// is either already as it should be, or an original one that has not been visited yet.
+//@ define replicaOk(c types.ProcessConfig, k string, name string, scale int) bool = c.Replicas == scale && c.ReplicaName == replicaNameOf(name, scale, c.ReplicaNum) && c.ReplicaName == k
+//@ func (p *ProjectRunner) updateReplicaCount
+//@   requires wf: noLocks() && runnerWF(p)
+//@   requires maps: p.processLogs != nil && p.processStates != nil && p.project.Processes != nil
+//@   requires keyed: projKeyed(p)
+//@   requires logs-nonnil: forall k string :: k in p.processLogs ==> p.processLogs[k] != nil
+//@   ensures counted-and-named: forall k string :: k in p.project.Processes && p.project.Processes[k].Name == name ==> replicaOk(p.project.Processes[k], k, name, scale)
+//@   ensures others-untouched: forall k string :: old(k in p.project.Processes) && old(p.project.Processes[k].Name) != name && (forall n int {replicaNameOf(name, scale, n)} :: k != replicaNameOf(name, scale, n)) ==> k in p.project.Processes && p.project.Processes[k] == old(p.project.Processes[k])
+//@   ensures nolocks: noLocks()
+//@   loop 1 invariant logs-nonnil: forall k string :: k in p.processLogs ==> p.processLogs[k] != nil
+//@   loop 1 invariant wf: noLocks() && runnerWF(p) && p.processLogs != nil && p.processStates != nil && p.project.Processes != nil && p.project == old(p.project) && p.project.Processes == old(p.project.Processes)
+//@   loop 1 invariant done-or-pending: forall k string :: k in p.project.Processes && p.project.Processes[k].Name == name ==>
+//@        replicaOk(p.project.Processes[k], k, name, scale) || (!seen(k) && old(k in p.project.Processes) && p.project.Processes[k] == old(p.project.Processes[k]))
+//@   loop 1 invariant keyed: forall k string :: k in p.project.Processes && !seen(k) && old(k in p.project.Processes) && p.project.Processes[k] == old(p.project.Processes[k]) ==> p.project.Processes[k].ReplicaName == k
+//@   loop 1 invariant others: forall k string :: old(k in p.project.Processes) && old(p.project.Processes[k].Name) != name && (forall n int {replicaNameOf(name, scale, n)} :: k != replicaNameOf(name, scale, n)) ==> k in p.project.Processes && p.project.Processes[k] == old(p.project.Processes[k])
 
 // Scale-down: the selection loop runs under the configuration lock and keeps the map keyed; every selected name gets
 // a remover goroutine, whose contract is that of removeProcess. (That exactly the replicas numbered >= the new count
@@ -724,6 +747,7 @@ package app
 //@ func (p *ProjectRunner) scaleDownProcess
 //@   requires noLocks() && runnerWF(p) && p.project.Processes != nil
 //@   ensures removers: spawned(fntag("(*app.ProjectRunner).scaleDownProcess$1")) >= old(spawned(fntag("(*app.ProjectRunner).scaleDownProcess$1")))
+//@   ensures wf: noLocks() && runnerWF(p)
 //@   loop 1 invariant held(p.procConfMutex) && (forall m ref :: m != addr(p.procConfMutex) ==> !held(m)) && p.project.Processes != nil
 //@   loop 2 invariant idx >= -1 && noLocks() && spawned(fntag("(*app.ProjectRunner).scaleDownProcess$1")) >= old(spawned(fntag("(*app.ProjectRunner).scaleDownProcess$1")))
 //@ func (p *ProjectRunner) scaleDownProcess$1
@@ -742,10 +766,13 @@ package app
 //@   ensures nolocks: noLocks()
 
 // the number of replicas currently configured under a process name; at least one if any replica carries the name
+// the number a scale request is compared with is the CURRENT number of configured replicas
+//@ ghost lastReplicaCount() int
 //@ func (p *ProjectRunner) getCurrentReplicaCount
+//@   sets lastReplicaCount() := result
 //@   ensures nonneg: result >= 0
 //@   ensures counted: forall k string :: k in p.project.Processes && p.project.Processes[k].Name == name ==> result >= 1
-//@   assigns nothing
+//@   assigns lastReplicaCount()
 //@   loop 1 invariant counter >= 0
 //@   loop 1 invariant forall k string :: seen(k) && k in p.project.Processes && p.project.Processes[k].Name == name ==> counter >= 1
 
